@@ -261,3 +261,60 @@ def configs(tier):
     for t, l, m in (('kelvin', 'm', 'kg/s'), ('kelvin', 'cm', 'kg/s'), ('celsius', 'm', 'lb/min'), ('fahrenheit', 'in', 'kg/hr')):
         out.append((convert_each_once, dict(temperature=t, length=l, mfr=m, pin='PinModel', no_interval=True)))
     return out
+
+
+# keys of the input that carry a dimension (by name, wherever they occur in the template)
+_DIM_LENGTH = {'length', 'assembly_pitch', 'pin_pitch', 'pin_diameter', 'clad_thickness', 'wire_pitch', 'wire_diameter',
+               'duct_ftf', 'z_lo', 'z_hi', 'hydraulic_diameter', 'epsilon', 'gap_thickness', 'fcgap_thickness',
+               'axial_positions', 'axial_mesh_size', 'conv_approx_dz_cutoff', 'axial_plane', 'interval'}
+_DIM_TEMPERATURE = {'coolant_inlet_temp', 'bulk_coolant_temp', 'outlet_temp', 'delta_temp'}
+_DIM_FLOW = {'flowrate', 'flow_rate'}
+
+
+def template_defaults():
+    """defaults are filled in from input_template.txt BEFORE the units are converted, so a dimensional key must not
+    have a dimensional default there: `default=None` (or no default), or 0 for a length (0 is the same in every unit).
+    A value such as default=0.001 would mean 1 mm in a metre input and 10 micrometres in a centimetre input."""
+    import os
+    import re as _re
+    path = os.path.join(os.environ.get('DASSH_REPO', '/repo'), 'dassh', 'input_template.txt')
+    out = []
+    section = []
+    for ln, line in enumerate(open(path), 1):
+        t = line.strip()
+        m = _re.match(r'^(\[+)\s*([^\]]+?)\s*\]+$', t)
+        if m:
+            depth = len(m.group(1))
+            section = section[:depth - 1] + [m.group(2)]
+            continue
+        m = _re.match(r'^(\w+)\s*=\s*(.+)$', t)
+        if not m:
+            continue
+        key, spec = m.group(1), m.group(2)
+        kind = 'length' if key in _DIM_LENGTH else 'temperature' if key in _DIM_TEMPERATURE else \
+            'flow' if key in _DIM_FLOW else None
+        if kind is None or 'Units' in section:         # [[Units]] length = 'm' names a unit, it is not a length
+            continue
+        d = _re.search(r'default\s*=\s*([^,)]+)', spec)
+        default = d.group(1).strip() if d else None
+        ok = default in (None, 'None') or default.startswith('list(') and default in ('list()',) \
+            or (kind == 'length' and _re.fullmatch(r'0(\.0*)?', default or '') is not None)
+        out.append(('.'.join(section + [key]), kind, default, bool(ok), ln))
+    return out
+
+
+def extra_checks(tier, seed):
+    results = []
+    rows = template_defaults()
+    for name, kind, default, ok, ln in rows:
+        results.append(dict(name=f'template.dimensional_default_is_unit_free[{name}]', status='proved' if ok else 'refuted',
+                            backend='template-scan', seconds=0.0,
+                            detail='' if ok else f'input_template.txt line {ln}: {kind} key {name} has default={default}, which '
+                                                 f'is then converted as if written in the user\'s {kind} unit',
+                            witness=None if ok else dict(values=dict(key=name, default=default)),
+                            replay=None if ok else dict(reproduced=False, point=dict(values=dict(key=name)), native=f'line {ln}')))
+    if not rows:
+        results.append(dict(name='template.dimensional_keys_found', status='fault', backend='template-scan', seconds=0.0,
+                            detail='no dimensional key found in input_template.txt'))
+    return [dict(name='input template: dimensional defaults', results=results,
+                 notes=['static scan of dassh/input_template.txt: %d dimensional keys' % len(rows)])]
